@@ -287,9 +287,15 @@ def pearson_matrix(a):
     return out
 
 
-def has_ties(a):
-    return any(len(np.unique(a[:, i])) < a.shape[0]
-               for i in range(a.shape[1]))
+def has_ties(a, rel=1e-9):
+    """True if some series has two samples that are equal or closer than
+    rel * (range of the series): the rank order is then decided by rounding
+    noise (e.g. anomalies that are tied in exact arithmetic)."""
+    for i in range(a.shape[1]):
+        v = np.sort(a[:, i])
+        if len(v) > 1 and np.min(np.diff(v)) <= rel * max(np.ptp(v), 1e-300):
+            return True
+    return False
 
 
 def spearman_matrix(a):
